@@ -543,3 +543,40 @@ M("C09", "look-behind-method-does-not-restore", F, "", "", "C09.R7",
   edits=[(F, LOOK + RESTORE, "        nonce = self._word_before(pos)\n"),
          (F, "    def tell(self):\n", "    def _word_before(self, pos):\n        try:\n            self.fh.seek(-4, io.SEEK_CUR)\n            word = self.fh.read(4)\n        except OSError:\n"
                                       "            word = b\"\\x00\\x00\\x00\\x00\"\n        return word\n\n    def tell(self):\n")])
+
+# ---- R8: anchors of relative seeks.  The end a SEEK_END seek is measured from is the end read() reads up to (the end of the
+# underlying file), the position a SEEK_CUR seek is measured from is the cursor of the underlying file: a target computed from the
+# header words / constructor arguments / the offset alone cannot be right (def-use value flow of the seek target).
+# the decoded size word cached by the constructor ("the header says how long the payload is") as the end anchor
+M("C09", "seek-end-anchored-at-size-cached-by-constructor", F, "", "", "C09.R8",
+  edits=[(F, INIT, INIT + "        self.payload_size = int.from_bytes(xor(self.nonced_filesize, self.initial_nonce), \"little\")\n"),
+         (F, SEEK, SEEK.replace("        return self.fh.seek(offset, whence)\n",
+                                "        if whence == io.SEEK_END:\n            return self.fh.seek(self.nonce_offset + 8 + self.payload_size + offset)\n        return self.fh.seek(offset, whence)\n"))])
+# on top of the elif-chain shape: the end anchor computed in place from the header words
+M("C09", "seek-elif-chain-end-from-header-words", F, SEEK,
+  SEEK_CHAIN.replace("if whence == io.SEEK_CUR or whence == io.SEEK_END:\n            pos = self.fh.seek(offset, whence)",
+                     "if whence == io.SEEK_END:\n            end = self.nonce_offset + 8 + u32(xor(self.initial_nonce, self.nonced_filesize))\n            pos = self.fh.seek(end + offset, io.SEEK_SET)\n"
+                     "        elif whence == io.SEEK_CUR:\n            pos = self.fh.seek(offset, whence)"), "C09.R8")
+# SEEK_END served relative to the current position
+M("C09", "seek-end-served-as-relative-to-position", F, SEEK,
+  SEEK.replace("        return self.fh.seek(offset, whence)\n", "        return self.fh.seek(offset, io.SEEK_CUR)\n"), "C09.R8")
+# SEEK_CUR rebased as an absolute seek by rebinding offset and whence together (tuple assignment)
+M("C09", "seek-cur-rebound-as-absolute", F, SEEK,
+  SEEK.replace("        if whence == io.SEEK_SET:\n", "        if whence == io.SEEK_CUR:\n            offset, whence = offset, io.SEEK_SET\n        if whence == io.SEEK_SET:\n"), "C09.R8")
+# SEEK_END rebound as SEEK_SET with a constant anchor
+M("C09", "seek-end-rebound-with-constant-anchor", F, SEEK,
+  SEEK.replace("        if whence == io.SEEK_SET:\n", "        if whence == io.SEEK_END:\n            whence, offset = io.SEEK_SET, offset + 4096\n        if whence == io.SEEK_SET:\n"), "C09.R8")
+# twins: the translation written as a rebinding of (offset, whence); relative seeks through quantities the underlying file reports
+T("C09", "twin-seek-tuple-rebinding", F, SEEK,
+  "    def seek(self, offset, whence=io.SEEK_SET):\n        if whence == io.SEEK_SET:\n            offset, whence = offset + self.nonce_offset + 8, io.SEEK_SET\n        return self.fh.seek(offset, whence)\n")
+T("C09", "twin-seek-end-measured-then-absolute", F, SEEK,
+  SEEK.replace("        return self.fh.seek(offset, whence)\n",
+               "        if whence == io.SEEK_END:\n            end = self.fh.seek(0, io.SEEK_END)\n            return self.fh.seek(end + offset)\n        return self.fh.seek(offset, whence)\n"))
+T("C09", "twin-seek-cur-through-tell", F, SEEK,
+  SEEK.replace("        return self.fh.seek(offset, whence)\n",
+               "        if whence == io.SEEK_CUR:\n            return self.fh.seek(self.fh.tell() + offset)\n        return self.fh.seek(offset, whence)\n"))
+# the end measured once by the constructor (a read-only file does not grow) and used as the anchor
+T("C09", "twin-seek-end-anchored-at-end-measured-by-constructor", F, "", "",
+  edits=[(F, INIT, "        self._raw_end = self.fh.seek(0, io.SEEK_END)\n" + INIT),
+         (F, SEEK, SEEK.replace("        return self.fh.seek(offset, whence)\n",
+                                "        if whence == io.SEEK_END:\n            return self.fh.seek(self._raw_end + offset)\n        return self.fh.seek(offset, whence)\n"))])
